@@ -317,7 +317,8 @@ func (p DHCP4) AppendOptions(options DHCP4Options, order []byte) int {
 			break
 		}
 	}
-	order = append(order, optionsReplyParametersList...)
+	// into a new array: the caller's order may be a view with spare capacity (the parameter request list of a parsed packet)
+	order = append(append(make([]byte, 0, len(order)+3), order...), optionsReplyParametersList...)
 
 	// first copy parameters in order
 	for _, code := range order {
